@@ -38,12 +38,17 @@ fn any_actor(allow_self: bool) -> ActorId {
     }
 }
 fn any_cs(allow_self: bool) -> Cs {
+    any_cs_upto(allow_self, NS)
+}
+/// `ns`: largest sequence number (the cache-lookup harness needs 0..=2: two cached ranges with a
+/// hole between them, and an offer spanning the hole)
+fn any_cs_upto(allow_self: bool, ns: u64) -> Cs {
     let full: bool = kani::any();
     let v: u64 = kani::any();
     let v2: u64 = kani::any();
     kani::assume(1 <= v && v <= NV && v <= v2 && v2 <= NV);
     let (s0, s1, last_seq): (u64, u64, u64) = (kani::any(), kani::any(), kani::any());
-    kani::assume(s0 <= s1 && s1 <= last_seq && last_seq <= NS);
+    kani::assume(s0 <= s1 && s1 <= last_seq && last_seq <= ns);
     // Empty changesets cover one version here (bound; keeps the seen cache within capacity)
     Cs { actor: any_actor(allow_self), full, v, v2: v, s0, s1, last_seq }
 }
@@ -435,7 +440,8 @@ fn c10_part_no_eviction_with_room() {
 #[kani::proof]
 #[kani::unwind(4)]
 fn c10_part_suppressed_iff_cache_covers_all_of_it() {
-    let (a, b) = (any_cs(false), any_cs(false));
+    // sequences 0..=2 here: the cache may hold {0} and {2} of a version while 0..=2 is offered
+    let (a, b) = (any_cs_upto(false, 2), any_cs_upto(false, 2));
     let n: u8 = kani::any();
     let mut seen: Seen = IndexMap::new();
     if n >= 1 {
@@ -444,7 +450,7 @@ fn c10_part_suppressed_iff_cache_covers_all_of_it() {
     if n >= 2 {
         record_seen(&mut seen, &b);
     }
-    let offered = any_cs(false);
+    let offered = any_cs_upto(false, 2);
     let ch = mk(&offered);
     let w = any_world(false);
     let mut queue: VecDeque<(ChangeV1, ChangeSource, Instant)> = VecDeque::new();
@@ -457,6 +463,7 @@ fn c10_part_suppressed_iff_cache_covers_all_of_it() {
     );
     kani::cover!(got, "suppressed");
     kani::cover!(!got && n >= 1 && a.actor == offered.actor && a.v == offered.v, "same version, not all sequences covered");
+    kani::cover!(!got && n >= 2 && offered.full && offered.s0 == 0 && offered.s1 == 2 && seen_has(&seen, offered.actor, offered.v, 0) == Some(true) && seen_has(&seen, offered.actor, offered.v, 2) == Some(true), "offer spans a hole between two cached ranges");
     core::mem::forget((seen, ch));
 }
 /// insertion: after recording, the cache covers the offer and still covers what it covered
